@@ -125,3 +125,168 @@ func runC14MS(c *Ctx) {
 }
 
 func registerC14Multistore() {}
+
+type nullReporter struct{}
+
+func (nullReporter) Violate(string, string, string) {}
+func (nullReporter) Count(string, int64)            {}
+
+func runC15(c *Ctx) {
+	race := raceSlice()
+	n := 20000
+	nc := 240
+	if !c.Quick() {
+		n, nc = 16*60000, 16*600
+	}
+	if race {
+		n, nc = 3000, 120
+	}
+	master := sim.NewRand(c.Seed ^ hashStr("C15"))
+	for i := 0; i < n; i++ {
+		r := master.Split(uint64(i))
+		if !c.Mine(i) {
+			continue
+		}
+		p := storechk.GenCProg(r)
+		c.Res.Cases++
+		rep := &caseReporter{c: c, caseID: fmt.Sprintf("p%d", i), replay: map[string]interface{}{"program": p}}
+		storechk.RunCProg(&p, rep)
+		if len(p.Ops) >= 10 {
+			bz, _ := json.Marshal(p)
+			c.Nontrivial(string(bz))
+		}
+		if i < 3 {
+			c.Sample(p)
+		}
+	}
+	cm := sim.NewRand(c.Seed ^ hashStr("C15conc"))
+	for i := 0; i < nc; i++ {
+		r := cm.Split(uint64(i))
+		if !c.Mine(i) {
+			continue
+		}
+		seed := r.U64()
+		g := 4 + r.Intn(9)
+		ops := 30 + r.Intn(40)
+		nk := 2 + r.Intn(3)
+		res, st, hist := storechk.RunConcurrent(seed, g, ops, nk)
+		c.Res.Cases++
+		c.Res.count("c15.conc.histories", 1)
+		c.Res.count("c15.conc.ops", int64(st.Ops))
+		c.Res.count("c15.conc.overlapping_ops", int64(st.Overlaps))
+		c.Res.count("c15.conc.result."+res, 1)
+		if st.Overlaps > 0 {
+			c.Nontrivial(fmt.Sprintf("conc-%d-%d-%d-%d", seed, g, ops, nk))
+		}
+		switch res {
+		case "illegal":
+			var lines []string
+			for _, op := range hist {
+				lines = append(lines, fmt.Sprintf("client %d [%d,%d] %v -> %v", op.ClientId, op.Call, op.Return, op.Input, op.Output))
+			}
+			c.Violation("C15", "not-linearizable", fmt.Sprintf("concurrent history (%d goroutines, %d ops each, %d keys) on one cache wrapper is not linearizable", g, ops, nk),
+				fmt.Sprintf("c%d", i), map[string]interface{}{"concurrent": map[string]interface{}{"seed": seed, "goroutines": g, "ops": ops, "keys": nk}, "history": lines})
+		case "unknown":
+			c.Res.Inconcl = append(c.Res.Inconcl, fmt.Sprintf("porcupine timed out on concurrent case c%d", i))
+		}
+		if i == 0 {
+			c.Sample(map[string]interface{}{"concurrent": true, "goroutines": g, "ops_each": ops, "keys": nk, "overlapping_ops": st.Overlaps, "per_key_history_sizes": st.PerKey, "result": res})
+		}
+	}
+}
+
+func replayC15(c *Ctx, raw json.RawMessage) {
+	var x struct {
+		Program    *storechk.CProg `json:"program"`
+		Concurrent *struct {
+			Seed       uint64 `json:"seed"`
+			Goroutines int    `json:"goroutines"`
+			Ops        int    `json:"ops"`
+			Keys       int    `json:"keys"`
+		} `json:"concurrent"`
+	}
+	json.Unmarshal(raw, &x)
+	if x.Program != nil {
+		storechk.RunCProg(x.Program, &caseReporter{c: c, caseID: "replay", replay: raw})
+	}
+	if x.Concurrent != nil {
+		// schedules are not replayable; the workload is re-run 50 times with the recorded parameters
+		for i := 0; i < 50; i++ {
+			if res, _, _ := storechk.RunConcurrent(x.Concurrent.Seed, x.Concurrent.Goroutines, x.Concurrent.Ops, x.Concurrent.Keys); res == "illegal" {
+				c.Violation("C15", "not-linearizable", "re-run of the recorded concurrent workload is not linearizable", "replay", raw)
+				return
+			}
+		}
+	}
+}
+
+func runC16(c *Ctx) {
+	n := 30000
+	if !c.Quick() {
+		n = 16 * 90000
+	}
+	master := sim.NewRand(c.Seed ^ hashStr("C16"))
+	for i := 0; i < n; i++ {
+		r := master.Split(uint64(i))
+		if !c.Mine(i) {
+			continue
+		}
+		p := storechk.GenWProg(r)
+		hasGas := false
+		for _, l := range p.Stack {
+			if l == "gas" {
+				hasGas = true
+			}
+		}
+		if hasGas {
+			switch r.Intn(4) {
+			case 0: // infinite meter
+			case 1, 2: // a limit one unit either side of an operation boundary
+				var cum []uint64
+				storechk.RunWProgCum(&p, nullReporter{}, &cum)
+				if len(cum) > 0 && cum[len(cum)-1] > 0 {
+					b := cum[r.Intn(len(cum))]
+					p.Limit = b + uint64(r.Intn(3)) // b, b+1, b+2 ...
+					if r.Bool() && b > 0 {
+						p.Limit = b - 1
+					}
+					if p.Limit == 0 {
+						p.Limit = 1
+					}
+				}
+			case 3: // meter pre-loaded next to 2^64
+				p.Limit = 0
+				if r.Bool() {
+					p.Limit = ^uint64(0)
+				}
+				p.Preload = ^uint64(0) - uint64(r.Intn(6000))
+			}
+		}
+		c.Res.Cases++
+		rep := &caseReporter{c: c, caseID: fmt.Sprintf("w%d", i), replay: p}
+		storechk.RunWProg(&p, rep)
+		bz, _ := json.Marshal(p)
+		c.Nontrivial(string(bz))
+		if i < 3 {
+			c.Sample(p)
+		}
+	}
+}
+
+func replayC16(c *Ctx, raw json.RawMessage) {
+	var p storechk.WProg
+	if json.Unmarshal(raw, &p) == nil {
+		storechk.RunWProg(&p, &caseReporter{c: c, caseID: "replay", replay: raw})
+	}
+}
+
+func init() {
+	register(&PropDef{ID: "C15", Level: "exploration", Workers: workersFor(8, 16), Run: runC15, Replay: replayC15, Race: true,
+		Rule:   "sequential: one case = one operation program (5-60 ops, nesting <= 4, four parent kinds) compared op-by-op with a sorted-map model, non-trivial = >= 10 ops, distinct by hash of the program; concurrent: one case = one recorded history of 4-12 goroutines on 2-4 keys checked by porcupine per key, non-trivial = it contains overlapping operations; the same workload runs under the Go race detector",
+		Floors: map[string]int64{"c15.seq.iterations": 2000, "c15.seq.writes": 1000, "c15.seq.iterations_with_interleaved_write": 500, "c15.conc.histories": 100, "c15.conc.overlapping_ops": 1000},
+		Assume: []string{"operations are applied to the innermost open wrapper only (the parent is not written behind a live wrapper)", "writes during an open iterator are judged by the weak guarantees of DESIGN.md C15"}})
+	register(&PropDef{ID: "C16", Level: "exploration", Workers: workersFor(8, 16), Run: runC16, Replay: replayC16,
+		Rule:   "one case = one operation program against a stacking of prefix/gas/trace/cache wrappers over a MemDB parent holding keys inside and outside the prefix, with a gas limit placed next to an operation boundary or a meter pre-loaded next to 2^64; every case is distinct by hash and non-trivial (>= 4 ops)",
+		Floors: map[string]int64{"c16.ops": 100000, "c16.gas_panics.outofgas": 500, "c16.gas_panics.overflow": 100, "c16.trace_lines": 10000},
+		Assume: []string{"gas reference = the doc comments of store/gaskv (flat + per-byte around each delegated call; iterator: seek charge at creation if valid, and in Next for the current value before advancing)", "tracekv does not trace Has (as upstream); it is not required to"}})
+}
